@@ -1,5 +1,6 @@
 From Coq Require Extraction ExtrOcamlBasic.
-From Rpgp Require Import Base.Octets Kdf.Kdf Cost.Cost.
+From Rpgp Require Import Base.Octets Kdf.Kdf Cost.Cost Wire.Fmt Wire.Packets Wire.Wire.
 Extraction Language OCaml.
 Separate Extraction Byte.to_N Byte.of_N
-  Cost.take_bytes Cost.argon2_allowed Cost.mpi_allowed Cost.chunk_allowed Cost.aead_buffer Cost.subpacket_vec_cap Kdf.decode_count.
+  Cost.take_bytes Cost.argon2_allowed Cost.mpi_allowed Cost.chunk_allowed Cost.aead_buffer Cost.subpacket_vec_cap Kdf.decode_count
+  Fmt.gen Packets.body_fmt Wire.packet.
